@@ -41,8 +41,49 @@ Monitors:
         probe class and in the bus position of the output classes, alone and
         mixed with numbers inside (nested) lists.
         Keys: C03/converting-constructor/<kind>/<mechanism | callee>.
+  dflt  (part of gen) DEFAULTING constructors: a third population,
+        discovered at run time (Harness.discover, the same probing with the
+        positions whose default is None given explicitly): constructors
+        that fill a position left empty (None) with a computed default - a
+        unit (the chaotic generators: freq -> SampleRate * 0.5), another
+        argument (Stepper resetval -> min, Gendy knum -> initcps) or a
+        constant (BeatTrack2) - and hand everything, in order, to one
+        generic expansion.  The class of behaviour behind it: every
+        decision a constructor takes about an argument BEFORE the expansion
+        (is it given? is it "nothing"?) is taken for the whole, still
+        unexpanded argument; unless it is a test for the empty position
+        itself (`is None`) it is a different function for a value alone and
+        for the same value inside a list (truthiness: a literal 0 / 0.0
+        alone is falsy, [0, 220] is not; equality with a sentinel; a type
+        test).  So the defaultable positions get explicit numbers with
+        literal zeros of both types over-represented, alone and inside
+        (nested) lists / channel lists, next to calls that leave the
+        position to its default (None given, or omitted) while other
+        positions hold lists.  Unit counting: when a position is left to
+        its default only the units of the called class are counted (the
+        default's units are made once by the expanded call, once per
+        combination by the reference calls; their structure is compared).
+        Keys: C03/defaulting-constructor/<kind>/<mechanism | callee>
+        (mechanism 'explicit-value-taken-for-omitted': the value alone gives
+        what the default gives, [value] does not).
   op    ChannelList unary / binary operators and operator methods, both
-        operand orders.
+        operand orders.  UNIT AGAINST SEQUENCE (family '<fam>-unit', keys
+        C03/unit-list-binop/...): a single unit - or one output of a
+        multi-output unit - on one side and a plain list or a ChannelList on
+        the other.  There the operator of the UNIT expands (BinaryOpUGen
+        through the generic expansion), so the full law is decided, not the
+        rules of list arithmetic: a channel list at EVERY level of the
+        answer, tuples are single values (the domain restriction on tuples
+        concerns ChannelList arithmetic only), one unit per combination.
+        The class of behaviour: the answer must not depend on the container
+        the values sit in nor on the entry point, so the operand is a plain
+        list, a ChannelList, a ChannelList holding nested plain lists /
+        tuples, a plain list holding channel lists, and the call goes
+        through the python operator in both orders, the named method of the
+        unit, and the builtin function with the unit first or second
+        (`ChannelList op unit` is list arithmetic and stays with the chlist
+        families).  A failure that disappears when every ChannelList of the
+        operand is replaced by a plain list gets '/channel-list-operand'.
   meth  ChannelList convenience methods (range, lag, linlin, madd, ...).
         Cases in which both the expanded call and the per-element calls raise
         give no verdict; a canonical plain call per method records the methods
@@ -77,8 +118,14 @@ RULE = ("seeded random calls; gen: uniformly chosen qualifying (class, "
         "omitted at random, 12 % of the calls go to the converting "
         "constructors (delay-line family .ar) with lists mixing audio-rate "
         "units, control-rate units and numbers in the converted position, "
-        "Buffer / Bus objects as further leaves; op/meth: ChannelList receivers (flat or nested) "
-        "against scalar/list/nested operands; out: output classes with nested "
+        "Buffer / Bus objects as further leaves, 10 % go to the defaulting "
+        "constructors (a None default filled in before the expansion) with "
+        "explicit zeros / numbers / lists or None in the defaultable "
+        "position; op/meth: ChannelList receivers (flat or nested) "
+        "against scalar/list/nested operands, 24 % of the binary operator "
+        "cases put a single unit / output proxy against a plain list or "
+        "ChannelList (nested lists, tuples inside) through operator, "
+        "reflected operator, named method and builtin function; out: output classes with nested "
         "channel arrays and int/float zeros.  A case is non-trivial when the "
         "expansion has to wrap or recurse (two list arguments of different "
         "length, or a nested list, and a list of length >= 2) and both the "
@@ -98,8 +145,12 @@ ASSUMPTIONS = [
     "a pooled Buffer / Bus object stands for the buffer number / bus index "
     "it was created with (fixed by the harness)",
     "empty lists, tuples as operands of ChannelList arithmetic (sc3 documents "
-    "that list arithmetic also zips tuples) and number receivers of named "
-    "convenience methods are outside the domain",
+    "that list arithmetic also zips tuples; NOT tuples inside the sequence "
+    "operand of a single unit, where the generic expansion decides) and "
+    "number receivers of named convenience methods are outside the domain",
+    "defaulting constructors: what a position left to its default (None) "
+    "means is taken from the list-free call; None inside a list and empty "
+    "lists are outside the domain",
     "methods that fail for every argument (both the expanded call and the "
     "per-element calls raise) are counted (observed_unusable_method/<name>), "
     "not judged: they cannot violate the law",
@@ -115,12 +166,24 @@ MIN_COUNTERS = {
               'out_argument_snapshots_compared': 1000,
               'gen_second_builds_with_shared_arguments': 300,
               'gen_argument_snapshots_compared': 3000,
-              'min_classes_qualified': 100,
+              'min_classes_qualified': 400,
               'min_converting_constructors_qualified': 15,
               'gen_converting_compared': 3000,
               'gen_converting_mixed_lists_compared': 1200,
               'gen_compared_with_objects_inside_lists': 2000,
-              'out_units_checked_with_bus_objects': 3000},
+              'out_units_checked_with_bus_objects': 3000,
+              'min_defaulting_constructors_qualified': 30,
+              'min_default_substituting_constructors_qualified': 28,
+              'gen_defaulting_compared': 1000,
+              'gen_default_substituting_compared_zero_inside_list': 300,
+              'gen_defaulting_compared_position_left_to_default': 300,
+              'op_unit_compared': 600,
+              'op_unit_compared_channel_list_operand': 200,
+              'op_unit_compared_channel_list_holding_nested_list': 100,
+              'op_unit_compared_channel_list_holding_tuple': 40,
+              'op_unit_compared_with_tuples': 150,
+              'op_unit_route/bi': 60, 'op_unit_route/bi-r': 60,
+              'op_unit_route/method': 80, 'op_unit_route/rop': 100},
     'thorough': {'gen_compared': 100000, 'gen_unit_count_checks': 100000,
                  'gen_bytes_trees_compared': 20000, 'gen_tuple_probes': 2000,
                  'op_compared': 30000, 'meth_compared': 15000,
@@ -131,12 +194,24 @@ MIN_COUNTERS = {
                  'out_argument_snapshots_compared': 50000,
                  'gen_second_builds_with_shared_arguments': 10000,
                  'gen_argument_snapshots_compared': 200000,
-                 'min_classes_qualified': 100,
+                 'min_classes_qualified': 400,
                  'min_converting_constructors_qualified': 15,
                  'gen_converting_compared': 10000,
                  'gen_converting_mixed_lists_compared': 4000,
                  'gen_compared_with_objects_inside_lists': 8000,
-                 'out_units_checked_with_bus_objects': 5000},
+                 'out_units_checked_with_bus_objects': 5000,
+                 'min_defaulting_constructors_qualified': 30,
+                 'min_default_substituting_constructors_qualified': 28,
+                 'gen_defaulting_compared': 8000,
+                 'gen_default_substituting_compared_zero_inside_list': 2500,
+                 'gen_defaulting_compared_position_left_to_default': 2500,
+                 'op_unit_compared': 5000,
+                 'op_unit_compared_channel_list_operand': 1500,
+                 'op_unit_compared_channel_list_holding_nested_list': 800,
+                 'op_unit_compared_channel_list_holding_tuple': 300,
+                 'op_unit_compared_with_tuples': 1000,
+                 'op_unit_route/bi': 500, 'op_unit_route/bi-r': 500,
+                 'op_unit_route/method': 600, 'op_unit_route/rop': 800},
 }
 
 
@@ -163,8 +238,9 @@ def coverage_extra(counters, tier):
     ops = sorted(k[3:] for k in counters if k.startswith('op/'))
     me = sorted(k[5:] for k in counters if k.startswith('meth/'))
     cv = sorted(k[11:] for k in counters if k.startswith('converting/'))
+    df = sorted(k[11:] for k in counters if k.startswith('defaulting/'))
     return {'constructors_covered': len(cl), 'constructor_list': cl,
-            'converting_constructors': cv,
+            'converting_constructors': cv, 'defaulting_constructors': df,
             'operators_covered': ops, 'methods_covered': me}
 
 
@@ -254,6 +330,9 @@ class Harness:
             return self.ocl.LFSaw.kr(self.tag)
         if rate == 'stereo':
             return self.panm.Pan2.ar(self.ocl.SinOsc.ar(self.tag))
+        if rate == 'proxy':
+            # one output of a multi-output unit (an OutputProxy)
+            return self.panm.Pan2.ar(self.ocl.SinOsc.ar(self.tag))[1]
         raise ValueError(rate)
 
     # long-lived non-unit values that stand for a number as a unit input;
@@ -389,7 +468,17 @@ class Harness:
         using numbers and (ar/kr/new) unit generators.  'returns' tells
         whether the constructor returns that call's value itself (otherwise
         only unit creation is decided for it, e.g. FreeSelf returns its
-        input)."""
+        input).
+
+        Side result self.dpop, the DEFAULTING constructors: pairs with at
+        least one parameter whose default is None that qualify in the same
+        way when these positions ('opt') are given explicitly (a number, a
+        two-element list, a unit) and that, with such a position left to its
+        default - alone and next to a list in any other position - still
+        hand every OTHER argument unchanged to the one expansion and return
+        its value ('substitutes': the positions where something else than
+        None is handed on then).  Probing uses non-zero numbers only; the
+        monitor decides zeros, lists holding zeros, nesting, wrapping."""
         import inspect
         ugn = self.ugn
         orig = ugn.SynthObject.__dict__['_multi_new'].__func__
@@ -407,6 +496,7 @@ class Harness:
             return ret
         ugn.SynthObject._multi_new = classmethod(_multi_new)
         pop = []
+        self.dpop = []
         try:
             for name, cls in sorted(self.installed.items()):
                 for sel in ('ar', 'kr', 'ir', 'dr', 'new'):
@@ -444,6 +534,27 @@ class Harness:
                                         'returns': q['returns'],
                                         'ugen_ok': q['ugen_ok']})
                             break
+                    # DEFAULTING constructors: the same probing with the
+                    # positions whose default is None given explicitly
+                    if not any(d is None for _, k, d in params
+                               if k == 'fixed'):
+                        continue
+                    dparams = [(n, 'opt', None) if k == 'fixed' and d is None
+                               else (n, k, d) for n, k, d in params]
+                    for reqleaf in (('ugen', 'num') if sel in ('ar', 'kr', 'new')
+                                    else ('num',)):
+                        q = self._qualifies(cls, sel, meth, dparams, reqleaf,
+                                            calls, depth)
+                        if q and q['returns']:
+                            self.dpop.append({
+                                'cls': cls, 'name': name, 'sel': sel,
+                                'meth': meth, 'params': dparams,
+                                'reqleaf': reqleaf, 'returns': True,
+                                'ugen_ok': q['ugen_ok'],
+                                'opts': {k for k, p in enumerate(dparams)
+                                         if p[1] == 'opt'},
+                                'substitutes': q['substitutes']})
+                            break
         finally:
             ugn.SynthObject._multi_new = classmethod(orig)
         return pop
@@ -455,12 +566,16 @@ class Harness:
             return 1
         if kind == 'fixed':
             return default
+        if kind == 'opt':
+            # a position whose default is None, given explicitly
+            return 0.25 + k
         if reqleaf == 'ugen':
             return self.make_ugen('control' if sel == 'kr' else 'audio')
         return 0.25 + k
 
     def _qualifies(self, cls, sel, meth, params, reqleaf, calls, depth):
-        res = {'ok': None, 'returns': True, 'ugen_ok': set()}
+        res = {'ok': None, 'returns': True, 'ugen_ok': set(),
+               'substitutes': set()}
 
         def same(x, y):
             if isinstance(x, list) and isinstance(y, list):
@@ -469,8 +584,9 @@ class Harness:
                               and isinstance(x, (int, float, str, tuple))
                               and x == y)
 
-        def one(args):
-            """'ok' | 'raise' | 'no'"""
+        def one(args, free=None):
+            """'ok' | 'raise' | 'no'.  free: a position (given as None, i.e.
+            left to its default) whose handed value is not compared."""
             del calls[:]
             depth[0] = 0
             try:
@@ -483,8 +599,11 @@ class Harness:
             a, r = mine[0]
             if sel in RATE_OF_SEL and a[0] != RATE_OF_SEL[sel]:
                 return 'no'
-            if not all(same(x, y) for x, y in zip(a[1:], args)):
+            if not all(same(x, y) for k, (x, y) in enumerate(zip(a[1:], args))
+                       if k != free):
                 return 'no'
+            if free is not None and a[1 + free] is not None:
+                res['substitutes'].add(free)
             if ret is not r:
                 res['returns'] = False
             return 'ok'
@@ -504,10 +623,25 @@ class Harness:
                         sel, params[j][1], params[j][2], reqleaf, j)]
                 if one(args) != 'ok':
                     return
+            # positions whose default is None: left to the default (alone
+            # and next to a list in another position) the constructor still
+            # delegates every OTHER argument unchanged to the one expansion
+            for j in range(len(params)):
+                if params[j][1] != 'opt':
+                    continue
+                for jj in [-1] + [x for x in range(len(params)) if x != j
+                                  and params[x][1] in ('num', 'req', 'opt')]:
+                    args = base()
+                    args[j] = None
+                    if jj >= 0:
+                        args[jj] = [args[jj], self._probe_value(
+                            sel, params[jj][1], params[jj][2], reqleaf, jj)]
+                    if one(args, free=j) != 'ok':
+                        return
             if sel in ('ar', 'kr', 'new'):
                 rate = 'control' if sel == 'kr' else 'audio'
                 for j in range(len(params)):
-                    if params[j][1] != 'num':
+                    if params[j][1] not in ('num', 'opt'):
                         continue
                     verdicts = []
                     for lst in (False, True):
@@ -788,6 +922,47 @@ def _unconverted(s, xs, ys):
     return None
 
 
+def zero_in_list(t):
+    """a literal zero (int or float) inside a list of the template."""
+    return t[0] == 'list' and any(
+        (x[0] == 'num' and not isinstance(x[1], bool) and x[1] == 0)
+        or zero_in_list(x) for x in t[1])
+
+
+def defaulting_mechanism(meth, args, opts, s):
+    """names WHY a defaulting constructor differs (key text only, the verdict
+    is the differential comparison): for an explicit number v of a
+    defaultable position, within one list-free combination of the other
+    arguments, the call with v alone, with [v] and with the position left to
+    its default are compared.  'explicit-value-taken-for-omitted': v alone
+    gives what the default gives although [v] gives something else;
+    'value-treated-differently-alone-and-inside-a-list' otherwise."""
+    combo = first_combination(args)
+    for j in sorted(opts):
+        if j >= len(args) or args[j] is None:
+            continue
+        seen = set()
+        for v in flat_leaves(args[j], []):
+            if isinstance(v, bool) or not isinstance(v, (int, float)) or \
+                    (type(v), v) in seen:
+                continue
+            seen.add((type(v), v))
+
+            def call(x):
+                a = list(combo)
+                a[j] = x
+                return meth(*a)
+            try:
+                A, L, B = call(v), call([v]), call(None)
+            except Exception:
+                continue
+            if isinstance(L, list) and len(L) == 1 and s(L[0]) != s(A):
+                if s(A) == s(B):
+                    return 'explicit-value-taken-for-omitted'
+                return 'value-treated-differently-alone-and-inside-a-list'
+    return None
+
+
 def exc_site(e):
     sites = tb_sites(e)
     return f'{type(e).__name__}@{sites[-1][0]}:{sites[-1][1]}' if sites \
@@ -834,6 +1009,12 @@ def num_for(kind, default, name='', probe=False):
                 return ('obj', 'bus', rng.randrange(4))
         if kind == 'chan':
             return rng.choice([1, 1, 2, 3])
+        if kind == 'opt':
+            # an explicit value where the default is None: literal zeros of
+            # both types are legal values and the ones a truthiness test
+            # confuses with "nothing given"
+            return rng.choice([0, 0.0, 0, 0.0, 0.25, 0.5, 1, 2.0, 3, 55.0,
+                               220.0, 440.0])
         if kind == 'num':
             if isinstance(default, int):
                 return rng.choice([default, default, default + 1, 1, 2, 0, 3])
@@ -868,15 +1049,26 @@ def gen_call_templates(rng, ent):
         given = [k for k in converts if k < n_given]
         if given:
             must_list = rng.choice(given)
+    opts = ent.get('opts') or ()
+    if opts and rng.random() < 0.5:
+        # defaulting constructor: often a list in a defaultable position
+        given = [k for k in opts if k < n_given]
+        if given:
+            must_list = rng.choice(given)
     for k in range(n_given):
         pname, kind, default = params[k]
         if kind == 'fixed':
             templates.append(('fixed', default))
             continue
+        if kind == 'opt' and k != must_list and rng.random() < 0.3:
+            # left to its default (None given explicitly; trailing positions
+            # are also omitted through n_given)
+            templates.append(('fixed', None))
+            continue
         p_ugen = 0.0 if not rates else (
             0.6 if k in converts else
             0.55 if kind == 'req' and ent['reqleaf'] == 'ugen' else
-            0.12 if kind == 'num' and k in ent['ugen_ok'] else 0.0)
+            0.12 if kind in ('num', 'opt') and k in ent['ugen_ok'] else 0.0)
         p_tuple = 0.0 if kind == 'chan' else (0.5 if tuple_mode else 0.04)
         force = None
         if k == must_list:
@@ -904,11 +1096,18 @@ def run_gen(spec, acc, H):
     acc.counters['min_converting_constructors_qualified'] = len(cpop)
     for e in cpop:
         acc.counters['converting/' + e['name'] + '.' + e['sel']] = 1
+    dpop = H.dpop
+    acc.counters['min_defaulting_constructors_qualified'] = len(dpop)
+    acc.counters['min_default_substituting_constructors_qualified'] = len(
+        [e for e in dpop if e['substitutes']])
+    for e in dpop:
+        acc.counters['defaulting/' + e['name'] + '.' + e['sel']] = 1
     for i in iter_cases(spec):
         rng = case_rng(spec['seed'], 'C03', 'gen', i)
         r = rng.random()
         ent = rng.choice(probes) if r < 0.06 else \
-            rng.choice(cpop) if r < 0.18 and cpop else rng.choice(pop)
+            rng.choice(cpop) if r < 0.18 and cpop else \
+            rng.choice(dpop) if r < 0.28 and dpop else rng.choice(pop)
         templates = gen_call_templates(rng, ent)
         gen_case(acc, H, i, ent, templates, probes,
                  reuse=rng.random() < 0.15)
@@ -953,6 +1152,9 @@ def gen_build(acc, H, i, ent, templates, probes, classify, share, build_no):
         if Eexc is not None or Rexc is not None:
             return
         st['diff'] = H.diff_kind(E, R, s) if ent['returns'] else None
+        opts = ent.get('opts') or ()
+        st['defaulted'] = any(k >= len(args) or args[k] is None
+                              for k in opts)
         if ent.get('converts'):
             # one unit of the class per combination; the units made by the
             # per-value conversion are made once per list element by the
@@ -965,8 +1167,16 @@ def gen_build(acc, H, i, ent, templates, probes, classify, share, build_no):
                               if k in ent['converts'])
             if st['diff'] == 'element':
                 st['conv_mech'] = converting_mechanism(H, E, R, s)
+        elif st['defaulted']:
+            # the units of a substituted default are made once by the
+            # expanded call and once per combination by the reference calls:
+            # compared by structure, counted are the units of the class
+            own = ent['cls'].__name__
+            st['count_ok'] = cE[own] == cR[own]
         else:
             st['count_ok'] = cE == cR
+        if opts and (st['diff'] or not st['count_ok']):
+            st['dflt_mech'] = defaulting_mechanism(meth, args, opts, s)
         if st['diff'] or not st['count_ok']:
             st['Erepr'], st['Rrepr'] = repr(E)[:600], repr(R)[:600]
             return
@@ -1031,6 +1241,19 @@ def gen_build(acc, H, i, ent, templates, probes, classify, share, build_no):
             acc.count('gen_converting_compared')
             if st.get('mixed'):
                 acc.count('gen_converting_mixed_lists_compared')
+        if ent.get('opts'):
+            acc.count('gen_defaulting_compared')
+            if ent['substitutes']:
+                acc.count('gen_default_substituting_compared')
+            if st.get('defaulted'):
+                acc.count('gen_defaulting_compared_position_left_to_default')
+            zl = [k for k in ent['opts'] if k < len(templates)
+                  and zero_in_list(templates[k])]
+            if zl:
+                acc.count('gen_defaulting_compared_zero_inside_list')
+                if ent['substitutes'].intersection(zl):
+                    acc.count(
+                        'gen_default_substituting_compared_zero_inside_list')
         if any(M.template_has(t, 'obj') for t in templates):
             acc.count('gen_compared_with_object_leaves')
             if any(object_in_list(t) for t in templates):
@@ -1110,6 +1333,11 @@ def gen_build(acc, H, i, ent, templates, probes, classify, share, build_no):
             key = f"C03/converting-constructor/{kind}/{st['conv_mech']}"
         elif ent.get('converts'):
             key = f'C03/converting-constructor/{kind}/{callee}'
+        elif ent.get('opts') and st.get('dflt_mech'):
+            # one mechanism for the whole family (the class is in the witness)
+            key = f"C03/defaulting-constructor/{kind}/{st['dflt_mech']}"
+        elif ent.get('opts'):
+            key = f'C03/defaulting-constructor/{kind}/{callee}'
         else:
             key = f'C03/constructor/{kind}/{callee}'
         acc.violation(key, wit)
@@ -1122,6 +1350,7 @@ def gen_bytes_check(acc, sd, st, wit):
         d = scgf.parse(bytes(sd.as_bytes()))
     except Exception:
         acc.count('gen_bytes_not_parseable')     # well-formedness is C02's
+        acc.count('gen_bytes_not_parseable/' + wit['callee'])
         return None
     unit, wire = dsigner(d)
     sinks = {}
@@ -1223,14 +1452,38 @@ def run_op(spec, acc, H):
             recv = gen_receiver(rng, p_num, rates)
             other = M.gen_template(rng, pos_num, 0.4, 0.0, rates)
             reverse = (not named) and rng.random() < 0.4
-            if rng.random() < 0.15:
-                # a single unit against a plain (nested) list: the operator
-                # itself has to expand (BinaryOpUGen through _multi_new)
-                recv = ('ugen', rng.choice(rates))
-                mirrored = reverse and name in COMPARISONS
+            route = None
+            if rng.random() < 0.24:
+                # UNIT AGAINST SEQUENCE: a single unit (or one output of a
+                # multi-output unit) on one side, a plain list or a
+                # ChannelList on the other.  Here the operator of the UNIT
+                # has to expand (BinaryOpUGen through the generic expansion),
+                # so the full law applies: nested lists give channel lists
+                # at every level, tuples are single values, one unit per
+                # combination - whatever the container (plain list /
+                # ChannelList / one inside the other) and whatever the entry
+                # point (python operator in both orders, named method of the
+                # unit, builtin function with the unit first or second).
+                recv = ('ugen', rng.choice(rates + ('proxy',)))
+                if named:
+                    route = rng.choice(['method', 'bi', 'bi-r']) \
+                        if hasattr(bi, name) else 'method'
+                else:
+                    route = 'op'
+                unit_right = reverse or route == 'bi-r'
+                mirrored = unit_right and name in COMPARISONS
+                force = rng.choice(['list', 'list', 'nested', 'nested',
+                                    'chlist'])
                 other = M.gen_template(
-                    rng, pos_num, 0.0 if mirrored else 0.4, 0.0, rates,
-                    force=rng.choice(['list', 'list', 'nested']))
+                    rng, pos_num, 0.0 if mirrored else 0.4,
+                    0.2 if rng.random() < 0.45 else 0.0, rates, force=force)
+                if unit_right:
+                    # `ChannelList op unit` is list arithmetic (other rules,
+                    # decided by the chlist families): keep the top plain
+                    other = ('list', other[1], False)
+                elif force == 'nested' and rng.random() < 0.45:
+                    # a ChannelList that holds nested plain lists
+                    other = ('list', other[1], True)
                 fam = fam + '-unit'
             elif reverse and name in COMPARISONS and other[0] == 'list':
                 # python dispatches `plain_list <cmp> ChannelList` to the
@@ -1238,11 +1491,11 @@ def run_op(spec, acc, H):
                 # structurally the same call - keep the operand scalar
                 other = M.gen_template(rng, pos_num, 0.4, 0.0, rates,
                                        force='scalar')
-            if reverse and other[0] == 'list' and other[2] and \
-                    rng.random() < 0.5:
+            if route is None and reverse and other[0] == 'list' and \
+                    other[2] and rng.random() < 0.5:
                 other = ('list', other[1], False)
             op_case(acc, H, i, fam, name, recv, other, reverse,
-                    reuse=rng.random() < 0.15)
+                    reuse=rng.random() < 0.15, route=route)
         else:
             name = rng.choice(PY_UN if fam == 'pyun' else NAMED_UN)
             p_num = 0.0 if name in RANDOM_OPS else (
@@ -1252,12 +1505,19 @@ def run_op(spec, acc, H):
                     reuse=rng.random() < 0.15)
 
 
-def op_callables(H, fam, name, reverse):
-    """(expanded_call(recv, other), leaf(a, b))"""
+def op_callables(H, fam, name, reverse, route=None):
+    """(expanded_call(recv, other), leaf(a, b)).  route (unit against
+    sequence only): 'op' | 'method' | 'bi' (builtin function, unit first) |
+    'bi-r' (builtin function, unit second)."""
     import operator
     bi = H.bi
     UG = H.ugn.UGen
     fam = fam.replace('-unit', '')
+    if route in ('bi', 'bi-r'):
+        f = getattr(bi, name)
+        if route == 'bi-r':
+            return (lambda r, o: f(o, r)), (lambda a: f(a[1], a[0]))
+        return (lambda r, o: f(r, o)), (lambda a: f(a[0], a[1]))
     if fam == 'pybin':
         f = getattr(operator, name)
         if reverse:
@@ -1281,22 +1541,39 @@ def op_callables(H, fam, name, reverse):
 
 
 def op_case(acc, H, i, fam, name, recv, other, reverse, classify=True,
-            reuse=False):
+            reuse=False, route=None):
     share = {} if reuse else None
     kind = op_build(acc, H, i, fam, name, recv, other, reverse, classify,
-                    share, 1)
+                    share, 1, route)
     if kind is None and reuse:
         acc.count('op_second_builds_with_shared_arguments')
         kind = op_build(acc, H, i, fam, name, recv, other, reverse, classify,
-                        share, 2)
+                        share, 2, route)
     return kind
 
 
+def plain_template(t):
+    """the template with every ChannelList replaced by a plain list."""
+    if t[0] == 'list':
+        return ('list', [plain_template(x) for x in t[1]], False)
+    return t
+
+
+def chlist_holds(t, tag):
+    """a ChannelList (at any depth) that directly holds a `tag` element."""
+    if t[0] != 'list':
+        return False
+    if t[2] and any(x[0] == tag for x in t[1]):
+        return True
+    return any(chlist_holds(x, tag) for x in t[1])
+
+
 def op_build(acc, H, i, fam, name, recv, other, reverse, classify, share,
-             build_no):
+             build_no, route=None):
     st = {}
-    call, leaf = op_callables(H, fam, name, reverse)
+    call, leaf = op_callables(H, fam, name, reverse, route)
     binary = other is not None
+    unit = fam.endswith('-unit')
 
     def body():
         r, rR = H.inst_pair(recv, share, (0,))
@@ -1311,12 +1588,17 @@ def op_build(acc, H, i, fam, name, recv, other, reverse, classify, share,
             [rR, oR] if binary else [rR], leaf, H.ChannelList, stats))
         st.update(E=E, Eexc=Eexc, R=R, Rexc=Rexc, stats=stats)
         if Eexc is None and Rexc is None:
-            st['diff'] = H.diff_kind(E, R, s, strict_inner=False)
+            # unit against sequence: the generic expansion decides, every
+            # level of the answer is a channel list; ChannelList arithmetic
+            # keeps the container type of nested operands
+            st['diff'] = H.diff_kind(E, R, s, strict_inner=unit)
             st['count_ok'] = cE == cR
             st['cE'], st['cR'] = dict(cE), dict(cR)
             st['Erepr'], st['Rrepr'] = repr(E)[:500], repr(R)[:500]
     H.build(body)
     opname = ('r' if reverse else '') + name
+    if route in ('bi', 'bi-r'):
+        opname = route + '.' + name
     desc = (fam, opname, repr(recv), repr(other))
     wit = {'case': i, 'family': fam, 'op': opname, 'receiver': repr(recv),
            'other': repr(other), 'build': build_no}
@@ -1344,6 +1626,20 @@ def op_build(acc, H, i, fam, name, recv, other, reverse, classify, share,
     else:
         acc.count('op_compared')
         acc.count('op/' + fam + ':' + opname)
+        if unit:
+            acc.count('op_unit_compared')
+            acc.count('op_unit_route/' + (
+                'rop' if route == 'op' and reverse else route or 'op'))
+            if recv[1] == 'proxy':
+                acc.count('op_unit_compared_output_proxy_receiver')
+            if other[2]:
+                acc.count('op_unit_compared_channel_list_operand')
+            if chlist_holds(other, 'list'):
+                acc.count('op_unit_compared_channel_list_holding_nested_list')
+            if M.template_has(other, 'tup'):
+                acc.count('op_unit_compared_with_tuples')
+            if chlist_holds(other, 'tup'):
+                acc.count('op_unit_compared_channel_list_holding_tuple')
         if st['diff']:
             kind = 'result-' + st['diff']
             wit.update(expanded=st['Erepr'], reference=st['Rrepr'])
@@ -1364,23 +1660,29 @@ def op_build(acc, H, i, fam, name, recv, other, reverse, classify, share,
         canon = {'pybin': 'add', 'namedbin': 'min', 'pyun': 'neg',
                  'namedun': 'neg'}[fam.replace('-unit', '')]
         if name != canon:
-            class _Null:
-                def count(self, *a): pass
-                def case(self, *a, **k): pass
-                def want_sample(self): return False
-                def violation(self, *a): pass
             k2 = op_case(_Null(), H, i, fam, canon, recv, other, reverse,
-                         classify=False, reuse=build_no == 2)
+                         classify=False, reuse=build_no == 2, route=route)
             generic = k2 is not None and k2 != 'argument-mutated'
             if generic:
                 wit['op_specific_kind'] = kind
                 kind = k2
         arity = 'binop' if binary else 'unop'
-        who = 'unit-list' if fam.endswith('-unit') else 'chlist'
+        who = 'unit-list' if unit else 'chlist'
+        trait = ''
+        if unit and M.template_has(other, 'list') and \
+                plain_template(other) != other:
+            # does it need a ChannelList among the operand's containers?
+            k3 = op_case(_Null(), H, i, fam, name, recv,
+                         plain_template(other), reverse, classify=False,
+                         reuse=build_no == 2, route=route)
+            if k3 is None:
+                trait = '/channel-list-operand'
         if generic or name == canon:
-            key = f'C03/{who}-{arity}/{kind}'
+            key = f'C03/{who}-{arity}/{kind}{trait}'
         else:
-            key = f'C03/{who}-{arity}/{kind}/{opname}'
+            key = f'C03/{who}-{arity}/{kind}/{opname}{trait}'
+        if route:
+            wit['route'] = route
         acc.violation(key, wit)
     return kind
 
